@@ -136,7 +136,11 @@ def _eval_wrapper(arg):
     t0 = time.time()
     signal.setitimer(signal.ITIMER_REAL, timeout)
     try:
-        res = mod.eval_case(kind, data)
+        import contextlib
+        import io
+
+        with contextlib.redirect_stdout(io.StringIO()):  # the library prints debug output on some error paths
+            res = mod.eval_case(kind, data)
         status = "ok"
     except CaseTimeout:
         res = new_result()
